@@ -48,4 +48,40 @@ example : locate "abc\n".toList 4 = ⟨1, 0, []⟩ := by decide
 example : locate "a\nb".toList 2 = ⟨1, 0, ['b']⟩ := by decide
 example : locate "é\nx€y".toList 7 = ⟨1, 2, "x€y".toList⟩ := by decide
 
+/-! ## non-vacuity (BEGIN) -/
+namespace C11_nv
+
+/-! all C11 theorems are unconditional; instantiated on the two-line multi-byte text `"é\nx€" ++ "y\nz"`
+    (error position at byte 7 = after `é`, newline, `x`, `€`) -/
+def pre : List Char := "é\nx€".toList
+def post : List Char := "y\nz".toList
+
+example : (locate (pre ++ post) (enc pre).length).lineno = pre.count '\n' ∧
+    (locate (pre ++ post) (enc pre).length).col = (afterLastNewline pre).length ∧
+    (locate (pre ++ post) (enc pre).length).line = afterLastNewline pre ++ post.takeWhile (· ≠ '\n') :=
+  C11_linecol pre post
+/-- … which says: line 1 (0-based), column 2, line text `x€y` -/
+example : (enc pre).length = 7 ∧ pre.count '\n' = 1 ∧ afterLastNewline pre = "x€".toList ∧
+    locate (pre ++ post) 7 = ⟨1, 2, "x€y".toList⟩ := by decide
+
+example : ∃ before, pre = before ++ afterLastNewline pre ∧ '\n' ∉ afterLastNewline pre ∧
+    (before = [] ∨ ∃ b, before = b ++ ['\n']) := C11_after_last_newline pre
+
+/-- a position inside the 3-byte `€` (byte 5) and one beyond the text (byte 99) are clamped -/
+example : ∃ p q, pre ++ post = p ++ q ∧ (enc p).length ≤ 5 ∧
+    (q = [] ∨ ∃ c r, q = c :: r ∧ 5 < (enc p).length + c.utf8Size) ∧
+    locate (pre ++ post) 5 = locate (pre ++ post) (enc p).length := C11_any_position (pre ++ post) 5
+example : locate (pre ++ post) 5 = ⟨1, 1, "x€y".toList⟩ ∧ locate (pre ++ post) 99 = ⟨2, 1, "z".toList⟩ := by decide
+
+/-- the rendered message for the error `⟨7, expected ';'⟩`, and the caret under column 2 -/
+example : ∃ head, render ⟨7, .expectedCharacter ';'⟩ (pre ++ post) (some "g.ebnf") =
+    head ++ "\n |  " ++ String.ofList (trimEnd (locate (pre ++ post) 7).line) ++ "\n" ++
+      (" |  " ++ String.ofList (List.replicate (locate (pre ++ post) 7).col ' ') ++ "^\n") :=
+  C11_caret_under_column ⟨7, .expectedCharacter ';'⟩ (pre ++ post) (some "g.ebnf")
+example : render ⟨7, .expectedCharacter ';'⟩ (pre ++ post) (some "g.ebnf") =
+    "expected character ';'\n--> g.ebnf:2:3\n |  \n |  x€y\n |    ^\n" := by decide +kernel
+
+end C11_nv
+/-! ## non-vacuity (END) -/
+
 end Peg.Props
